@@ -173,3 +173,20 @@ Proof.
   - unfold nkind in Hxk, Hkind2. unfold nlabel in Hxl.
     destruct (nkey x) as [kx lx], (nkey n2) as [k2 l2]. cbn [fst snd] in *. congruence.
 Qed.
+
+(* ---- C06: what a removed link pointed to is not touched ------------------------------------------------------- *)
+
+(* Any path q (in particular the target of a removed symbolic link) either still holds exactly what it held, or was
+   itself reported removed -- and then it is covered by removed_only_owned_finalize / the directory rule on its own
+   account. *)
+Theorem untouched_unless_reported c g f q e :
+  fs_get f q = Some e ->
+  let r := finalize c (init_state g f) in
+  fs_get (s_fs r) q = Some e \/ In q (s_files r) \/ In q (s_dirs r).
+Proof.
+  intros Hq. cbv zeta.
+  destruct (dir_removed_only_if_empty_finalize c g f) as [_ [Hvan Hsub]].
+  destruct (fs_get (s_fs (finalize c (init_state g f))) q) as [e'|] eqn:E.
+  - left. rewrite (Hsub q e' E) in Hq. congruence.
+  - right. apply Hvan; [congruence | exact E].
+Qed.
